@@ -279,6 +279,9 @@ func localCalls(w *World, ri int, alpha string) []pt.Action {
 			if strings.Contains(alpha, "same") {
 				add(pt.Action{Op: "put", K: k, V: "k"})
 			}
+			if strings.Contains(alpha, "alias") {
+				add(pt.Action{Op: "put", K: k, V: "sm"})
+			}
 			if r.mp.Get(k) != nil {
 				add(pt.Action{Op: "rem", K: k})
 			}
@@ -345,6 +348,9 @@ func localCalls(w *World, ri int, alpha string) []pt.Action {
 		}
 		if strings.Contains(alpha, "same") {
 			shapes = append(shapes, "k")
+		}
+		if strings.Contains(alpha, "alias") {
+			shapes = []string{"sm", "p"}
 		}
 		for _, t := range objs {
 			keys := []string{"a"}
